@@ -38,6 +38,11 @@ struct Item { count: i64, label: String, maybe: Option<i32>, list: Vec<u8> }
 #[elixir_module = "MyApp.Meter"]
 struct Meter { a: u8, b: i8, c: u16, d: i16, e: u32, f: i32, g: u64, h: i64, opt: Option<u32>, list: Vec<u32> }
 same_eq!(Meter);
+/// a derived struct whose optional fields hold empty values (Some(empty) is not None)
+#[derive(Debug, Clone, PartialEq, ElixirStruct)]
+#[elixir_module = "MyApp.Bag"]
+struct Bag { items: Option<Vec<i32>>, name: Option<String>, inner: Option<Vec<Vec<u8>>>, flag: Option<bool>, unit: Option<()> }
+same_eq!(Bag);
 /// variant and field names taken from the vocabulary an atom table may single out
 #[derive(Debug, Clone, Copy, PartialEq, Serialize, Deserialize)]
 enum Word {
@@ -257,6 +262,12 @@ fn main() {
             let extra = derived_struct_shapes(rep);
             check(rep, "Item (ElixirStruct)", &Item { count: i64::MIN, label: "é".into(), maybe: None, list: vec![] });
             check(rep, "Event (ElixirStruct, keyword fields)", &Event { r#type: "t".into(), r#ref: -1, r#fn: Some(i32::MAX), plain: false });
+            for (i, b) in [Bag { items: Some(vec![]), name: Some(String::new()), inner: Some(vec![]), flag: Some(false), unit: Some(()) }, Bag { items: None, name: None, inner: Some(vec![vec![]]), flag: None, unit: None },
+                Bag { items: Some(vec![0]), name: Some("nil".into()), inner: None, flag: Some(true), unit: None }, Bag { items: Some(vec![]), name: None, inner: None, flag: None, unit: None }].iter().enumerate() {
+                let _ = i;
+                check(rep, "Bag (ElixirStruct, optional fields around empty values)", b);
+                check_dist_header(rep, "Bag (ElixirStruct, optional fields around empty values)", b);
+            }
             // every field at the boundaries of its type and around 2^31 (where the wire changes the integer's representation)
             for e in [0u32, 1, i32::MAX as u32, 1 << 31, (1 << 31) + 1, u32::MAX - 1, u32::MAX] {
                 for g in [0u64, 1 << 31, u32::MAX as u64, 1 << 32, i64::MAX as u64, 1 << 63, u64::MAX] {
@@ -447,6 +458,19 @@ fn main() {
         check(&rep, "Result<i32,String>", &Ok::<i32, String>(-5)); check(&rep, "Result<i32,String>", &Err::<i32, String>("e".into()));
         check(&rep, "BTreeSet<String>", &std::collections::BTreeSet::from(["a".to_string(), "é".to_string()]));
         check(&rep, "[u16; 4]", &[0u16, 1, 65535, 256]);
+    }
+    // terms of the wrong shape are refused with an error whatever type is asked for (a panic escapes to the guard and is
+    // reported as one): a set of small odd terms x a set of target types
+    {
+        use erltf::OwnedTerm as T;
+        let odd: Vec<T> = vec![T::Tuple(vec![]), T::Tuple(vec![T::Tuple(vec![])]), T::Nil, T::List(vec![]), T::List(vec![T::Tuple(vec![])]), T::Tuple(vec![T::atom("x")]), T::Tuple(vec![T::Integer(1)]), T::Tuple(vec![T::atom("Tup")]),
+            T::Tuple(vec![T::atom("Tup"), T::Integer(1)]), T::Tuple(vec![T::atom("Rec"), T::Nil]), T::Tuple(vec![T::atom("Rec"), T::Tuple(vec![])]), T::Map(Default::default()), T::Binary(vec![]), T::atom(""), T::Integer(0), T::Float(0.0),
+            T::Tuple(vec![T::atom("New")]), T::Tuple(vec![T::atom("New"), T::Tuple(vec![])]), T::ImproperList { elements: vec![], tail: Box::new(T::Integer(1)) }, T::ImproperList { elements: vec![T::Integer(1)], tail: Box::new(T::Tuple(vec![])) }];
+        for t in &odd {
+            let bytes = erltf::encode(t).unwrap_or_default();
+            macro_rules! try_all { ($($ty:ty),*) => { $( { rep.add("evaluations", 2); let _ = from_term::<$ty>(t); let _ = from_bytes::<$ty>(&bytes); } )* } }
+            try_all!(Shape, Option<Shape>, Vec<Shape>, Word, Größe, Plain, Holder, Pair, Wrapper, (i32, String), Option<i32>, Vec<i32>, HashMap<String, Shape>, BTreeMap<i64, String>, String, char, bool, u8, i64, f64, (), Item, Event, billing::Kind, audit::Record);
+        }
     }
     // the byte round trip must not depend on what the thread was asked to SERIALISE (and was refused) before
     {
